@@ -200,7 +200,7 @@ partial def loop (h : IO.FS.Stream) (d : D) (lineNo : Nat) (pending : Option Out
     -- createDefaultBitVectorState(bytes): bit i of the state = bit (i % 8) of byte (i / 8), all defined
     let bytes : List Nat := if hex == "-" then [] else (List.range (hex.length / 2)).map fun j => hexVal (hex.toList.getD (2*j) '0') * 16 + hexVal (hex.toList.getD (2*j+1) '0')
     let chars := if bitsS == "-" then [] else bitsS.toList.reverse
-    let ok := chars.length == 8 * bytes.length && (List.range chars.length).all fun i => chars.getD i 'x' == (if (bytes.getD (i / 8) 0).testBit (i % 8) then '1' else '0')
+    let ok := Sig.isImportOf chars bytes
     let d := { d with ops := d.ops + 1, hist := bump d.hist "bytes:create" }
     if !ok then
       IO.println s!"PROPFAIL case={d.caseId} line={lineNo} op=[bytes create {hex}] impl={bitsS}"
@@ -210,7 +210,7 @@ partial def loop (h : IO.FS.Stream) (d : D) (lineNo : Nat) (pending : Option Out
     -- operator==(state, bytes): true iff every bit of the state is defined and equals the corresponding bit of the byte array
     let bytes : List Nat := if hex == "-" then [] else (List.range (hex.length / 2)).map fun j => hexVal (hex.toList.getD (2*j) '0') * 16 + hexVal (hex.toList.getD (2*j+1) '0')
     let chars := if bitsS == "-" then [] else bitsS.toList.reverse
-    let spec := chars.length == 8 * bytes.length && (List.range chars.length).all fun i => chars.getD i 'x' == (if (bytes.getD (i / 8) 0).testBit (i % 8) then '1' else '0')
+    let spec := Sig.eqBytesSpec chars bytes
     let d := { d with ops := d.ops + 1, hist := bump d.hist s!"bytes:eq:{if chars.any (· == 'x') then "undef" else "def"}:{spec}" }
     if spec != (r == "1") then
       IO.println s!"PROPFAIL case={d.caseId} line={lineNo} op=[bytes eq state={bitsS} bytes={hex}] spec={spec} impl={r}"
